@@ -69,7 +69,7 @@ def rule_gate(report, prog):
                      'NDEF.capacity of %s does more than return self._capacity' % c.qname)
 
 
-def unbound_uses(f):
+def unbound_uses(f, infeasible=None):
     """(variable, use node, loop) for variables bound only by a loop (target or body) and read after it on a path
     that skips the body."""
     cfg = cfg_of(f)
@@ -112,9 +112,10 @@ def unbound_uses(f):
     for var, defs in stores.items():
         if var in params:
             continue
-        avoid_nodes = [n for n, k in defs if k == 'stmt']
-        avoid_edges = [(n, 'body') for n, k in defs if k == 'for']
-        reach = cfg.reachable(cfg.entry, avoid_nodes=avoid_nodes, avoid_edges=avoid_edges)
+        # a binding statement binds on its normal exit only: when it raises, the handler is entered with the name still unbound
+        avoid_edges = [(n, 'body') for n, k in defs if k == 'for'] + \
+                      [(n, lab) for n, k in defs if k == 'stmt' for m_, lab in n.succ if lab != 'exc']
+        reach = cfg.reachable(cfg.entry, avoid_edges=avoid_edges + (infeasible(cfg) if infeasible else []))
         for n in cfg.nodes:
             if n not in reach or n.ast is None:
                 continue
@@ -323,7 +324,31 @@ def rule_attr(report, prog):
     report.check(okk, 'C01-R5', key(r.qname, 'attribute dictionary maps each name to its field'), r.loc(), 'attribute dictionary changed')
 
 
+
+def rule_emulation_limits(report, prog):
+    """R5 (emulated Type 3 Tag): Read Without Encryption serves up to 15 blocks per command (the largest Nbr the attribute block
+    can announce); the emulation refuses 16 and more, not fewer -- otherwise a reader that uses the announced Nbr gets status A2h."""
+    f = prog.func('nfc.tag.tt3.Type3TagEmulation.read_without_encryption')
+    tests_ = [i for i in walk_no_nested(f.node) if isinstance(i, ast.If) and 'len(service_block_list)' in norm(i.test) and
+              any(isinstance(x, ast.Return) for x in i.body)]
+    okk = len(tests_) == 1
+    refused = []
+    if okk:
+        for n in range(0, 18):
+            v = try_const(tests_[0].test, {'len(service_block_list)': n})
+            if v is None:
+                okk = False
+                break
+            if v:
+                refused.append(n)
+        okk = okk and refused == [16, 17]
+    report.check(okk, 'C01-R5', key(f.qname, 'block count limit: 1..15 served, 16+ refused'), f.loc(tests_[0]) if tests_ else f.loc(),
+                 'the emulated tag refuses read commands with %s blocks (expected: 16 and more)' % (refused or 'an unrecognised set of'))
+
 def run(report, prog, tier):
+    rule_emulation_limits(report, prog)
+    from .c03 import rule_control_tlv_dispatch
+    rule_control_tlv_dispatch(report, prog, rule='C01-R3')
     rule_gate(report, prog)
     rule_unbound(report, prog)
     rule_tlv_format(report, prog)
